@@ -1,6 +1,7 @@
 package main
 
 import (
+	"os"
 	"time"
 	"encoding/hex"
 	"fmt"
@@ -212,6 +213,60 @@ func c03Case(g *Gen, text string) {
 		}
 	}
 	g.Line("c03", encHex(text), T, L, P, C, IR)
+	c03EntryPoints(g, text, T, L)
+}
+
+var c03TmpDir string
+
+// c03EntryPoints: the public entry points that read the same bytes must agree — parse.String /
+// parse.Reader / parse.File on the tree, acc.LoadString / acc.LoadReader / acc.LoadFile on the chain
+// (a sample of the cases; a difference is a harness-side violation with the text as replay).
+func c03EntryPoints(g *Gen, text string, T, L string) {
+	if g.N%40 != 0 || g.notesViolation() || L == "inconsistent" {
+		return
+	}
+	if c03TmpDir == "" {
+		d, err := os.MkdirTemp("", "c03files")
+		if err != nil {
+			return
+		}
+		c03TmpDir = d
+	}
+	path := c03TmpDir + "/s.acc"
+	if os.WriteFile(path, []byte(text), 0o644) != nil {
+		return
+	}
+	tree := func(f func() (*ast.Chain, error)) string {
+		var c *ast.Chain
+		var err error
+		if pn := safe(func() { c, err = f() }); pn != "" {
+			return "panic"
+		}
+		if err != nil {
+			return "err"
+		}
+		return c03DumpTree(c)
+	}
+	chain := func(f func() (*ir.Program, error)) string {
+		var p *ir.Program
+		var err error
+		if pn := safe(func() { p, err = f() }); pn != "" {
+			return "panic"
+		}
+		if err != nil {
+			return "err"
+		}
+		return encInts(p.Chain)
+	}
+	tr := tree(func() (*ast.Chain, error) { return parse.Reader("s", strings.NewReader(text)) })
+	tf := tree(func() (*ast.Chain, error) { return parse.File(path) })
+	lr := chain(func() (*ir.Program, error) { return acc.LoadReader("s", strings.NewReader(text)) })
+	lf := chain(func() (*ir.Program, error) { return acc.LoadFile(path) })
+	g.Count("entry-points")
+	if tr != T || tf != T || lr != L || lf != L {
+		g.Notes = append(g.Notes, fmt.Sprintf("VIOLATION: entry points disagree on text %s: parse.String %s / Reader %s / File %s; LoadString %s / LoadReader %s / LoadFile %s",
+			encHex(text), T, tr, tf, L, lr, lf))
+	}
 }
 
 // ---------------------------------------------------------------------------------------------------------
@@ -533,6 +588,11 @@ func (c *c03gen) renderScript(ss []ast.Statement) string {
 }
 
 func genC03(g *Gen) {
+	defer func() {
+		if c03TmpDir != "" {
+			os.RemoveAll(c03TmpDir)
+		}
+	}()
 	c := &c03gen{g: g}
 	scale := g.pick(1, 10)
 
